@@ -29,10 +29,14 @@ func (t *WeightedMerkleTrie) GetPath(keys [][]byte) ([]byte, error) {
 		}
 	}
 
-	if len(keys) > 10 {
+	// the parallel collection fans out over the children of a branch root; any
+	// other root (a short node when all keys share a prefix, a single entry) is
+	// walked sequentially like a small request
+	rootBranch, isBranch := t.root.(*routingNode)
+	if len(keys) > 10 && isBranch {
 		eg, _ := errgroup.WithContext(context.TODO())
 		eg.SetLimit(5)
-		if node, ok := t.root.(*routingNode); ok {
+		if node := rootBranch; node != nil {
 			node.toCollect = true
 			var branchMu = [16]sync.Mutex{}
 			for i := 0; i < len(keys); i++ {
